@@ -513,7 +513,8 @@ class RawFileSystem(FileSystem[str]):
     def _resolve_path(self, path: str) -> str:
         """Get the absolute path."""
         abs_path = os.path.abspath(os.path.join(self.path, path))
-        if self.constrain_path and not abs_path.startswith(self.path):
+        # Compare with a trailing separator, so sibling folders like "root_other" don't match "root".
+        if self.constrain_path and abs_path != self.path and not abs_path.startswith(os.path.join(self.path, '')):
             raise RootEscapeError(self.path, path)
         return abs_path
 
